@@ -14,6 +14,7 @@ static vstr V(const std::string& s) { vstr r; std::memset(r.data, 0, sizeof r.da
 #define VSTR_WF(s) ((s).size < 32 && (s).data[(s).size] == 0)
 #define VSTR_CAP 32
 #define __CPROVER_is_fresh(p, n) 1
+#define __CPROVER_old(x) old_offset_
 '''
 NATIVE_OPAQUE = ''
 
@@ -25,6 +26,9 @@ def EXTRA_SOURCES(repo):
 BIND = {
     'Parse02d': dict(call='Parse02d(p)', show='std::printf("result %d for bytes %d %d\\n", rv_, p[0], p[1]);'),
     'Format02d': dict(call='Format02d(p, v)', show=''),
+    'FixedOffsetFromName': dict(pre='seconds_t old_offset_ = *offset; seconds off_(old_offset_);',
+                                call='FixedOffsetFromName(std::string(name->data, name->size), &off_); *offset = off_.count()',
+                                show='std::printf("result %d offset %lld for \\"%s\\"\\n", (int)rv_, (long long)*offset, name->data);'),
     'FixedOffsetToName': dict(call='V(FixedOffsetToName(seconds(offset)))', show='std::printf("result \\"%s\\"\\n", rv_.data);'),
     'FixedOffsetToAbbr': dict(call='V(FixedOffsetToAbbr(seconds(offset)))', show='std::printf("result \\"%s\\"\\n", rv_.data);'),
 }
